@@ -400,6 +400,28 @@ fn structured_inputs() -> Vec<Vec<u8>> {
     ] {
         v.push(s.as_bytes().to_vec());
     }
+    // long tokens of every class made of characters of mixed byte width: whatever echoes,
+    // truncates, pads or aligns user text (error messages, table headers) must do so on
+    // character boundaries. p ASCII characters shift the wide ones over every byte offset.
+    for (ascii, wide) in [('1', ['\u{663}', '\u{969}', '\u{1d7d9}']), ('a', ['\u{e9}', '\u{3042}', '\u{1d41a}'])] {
+        for w in wide {
+            for p in 0..4usize {
+                for n in [1usize, 2, 3, 5, 6, 7, 8, 9, 10, 11, 12, 13, 15, 16, 17, 20, 21, 23, 24, 25, 31, 32, 33, 40, 63, 64, 65, 100] {
+                    let tok: String = std::iter::repeat(ascii).take(p).chain(std::iter::repeat(w).take(n)).collect();
+                    if ascii == '1' {
+                        v.push(format!("[a] >= {}", tok).into_bytes());
+                        v.push(tok.clone().into_bytes());
+                    } else {
+                        v.push(format!("{} & -{}", tok, tok).into_bytes());
+                        v.push(format!("{} {}", tok, tok).into_bytes());
+                        v.push(format!("{{{}}}", tok).into_bytes());
+                        v.push(format!("exists {} # ({} | b", tok, tok).into_bytes());
+                        v.push(format!("\"{}\" a \"{}", tok, tok).into_bytes());
+                    }
+                }
+            }
+        }
+    }
     // invalid UTF-8
     v.push(vec![0xff]);
     v.push(vec![b'a', 0x80, b'b']);
@@ -445,10 +467,29 @@ fn structured_inputs() -> Vec<Vec<u8>> {
 }
 
 fn gen_bytes(t: &mut Tape, st: &mut Stats) -> (String, Vec<u8>) {
-    match t.choose(8) {
+    match t.choose(9) {
         0 => {
             let n = t.choose(64);
             ("random-bytes".into(), (0..n).map(|_| t.byte()).collect())
+        }
+        8 => {
+            // long tokens of mixed byte width (digits or word characters) in a small frame
+            const D: [char; 5] = ['1', '9', '\u{663}', '\u{969}', '\u{1d7d9}'];
+            const W: [char; 6] = ['a', '_', '\'', '\u{e9}', '\u{3042}', '\u{1d41a}'];
+            let digits = t.chance(128);
+            let n = 1 + t.choose(48);
+            let tok: String = (0..n)
+                .map(|_| if digits { D[t.choose(D.len())] } else { W[t.choose(W.len())] })
+                .collect();
+            let text = match t.choose(6) {
+                0 => format!("[a, b] >= {}", tok),
+                1 => format!("{} = [a]", tok),
+                2 => format!("a & {}", tok),
+                3 => format!("{{{}}} | a", tok),
+                4 => format!("forall {} # {} ^ a )", tok, tok),
+                _ => format!("a \"{}", tok),
+            };
+            ("long-mixed-width-token".into(), text.into_bytes())
         }
         1 => {
             // bytes drawn from the language's own characters
